@@ -12,8 +12,9 @@ package main
 //	dhe_pub   getECDHEPublicKey                                 body
 //	dhe_pckx  sm2ECDHEKeyAgreement.processClientKeyExchange     peer (client certificates), body
 //	dhe_pskx  sm2ECDHEKeyAgreement.processServerKeyExchange     peer, body
-//	dhe_gckx  sm2ECDHEKeyAgreement.generateClientKeyExchange    peer, tmp (a valid ServerKeyExchange was processed
-//	                                                            before), cenc (hs.encCert: nil|sm2|rsa|p256|ed), vec
+//	dhe_gckx  sm2ECDHEKeyAgreement.generateClientKeyExchange    peer, tmp (a well-formed ServerKeyExchange was given to
+//	                                                            processServerKeyExchange before, with the same peer
+//	                                                            certificates), cenc (hs.encCert: nil|sm2|rsa|p256|ed), vec
 
 import (
 	"strconv"
@@ -288,7 +289,9 @@ func execKX(desc string) string {
 	case "dhe_gckx":
 		k := newKA(stack, "ecdhe")
 		if hx.KVInt(desc, "tmp") == 1 {
-			k.ProcSKX([]*smx509.Certificate{s.SrvSig.Cert, s.SrvEnc.Cert}, cRandom, sRandom, validFor(stack).dheSKX)
+			// the same certificates as the later call sees (as in a real handshake); whether
+			// peerTmpKey got set is reported in the observation
+			k.ProcSKX(peerCerts(peerSpec, false), cRandom, sRandom, validFor(stack).dheSKX)
 		}
 		ce, _ := hx.KV(desc, "cenc")
 		return k.GenCKX(peerCerts(peerSpec, false), leafOf(ce, 1, true), hx.KVInt(desc, "vec") == 1).obs()
